@@ -96,7 +96,7 @@ func derefOutcome(v types.MalType, e error) string {
 }
 
 // one scenario; deterministic=true replays the model's counterexample window through a gate
-func runFutureScenario(rec *futRecorder, rnd *rand.Rand, body string, deterministic bool, deadctx bool, cancelrace bool) error {
+func runFutureScenario(rec *futRecorder, rnd *rand.Rand, body string, deterministic bool, deadctx bool, cancelrace bool, pollrace bool) error {
 	ns, probe, err := NewLoadedEnv()
 	if err != nil {
 		return err
@@ -309,6 +309,33 @@ func runFutureScenario(rec *futRecorder, rnd *rand.Rand, body string, determinis
 		op(1, "deref", "@f", ctx)
 		op(1, "cancelled?", "(future-cancelled? f)", ctx)
 		emitBodyCtx()
+	} else if pollrace {
+		// status predicates polled by two threads while a third cancels and a fourth awaits (for the race detector:
+		// every flag is read and written concurrently here)
+		var wg sync.WaitGroup
+		for t := 1; t <= 2; t++ {
+			wg.Add(1)
+			go func(t int) {
+				defer wg.Done()
+				for i := 0; i < 40; i++ {
+					op(t, "cancelled?", "(future-cancelled? f)", ctx)
+					op(t, "done?", "(future-done? f)", ctx)
+				}
+			}(t)
+		}
+		wg.Add(2)
+		go func() {
+			defer wg.Done()
+			time.Sleep(time.Duration(200+rnd.Intn(2000)) * time.Microsecond)
+			op(3, "cancel", "(future-cancel f)", ctx)
+			op(3, "cancel", "(future-cancel f)", ctx)
+		}()
+		go func() { defer wg.Done(); op(4, "deref", "@f", ctx) }()
+		wg.Wait()
+		op(0, "deref", "@f", ctx)
+		op(0, "done?", "(future-done? f)", ctx)
+		op(0, "cancelled?", "(future-cancelled? f)", ctx)
+		emitBodyCtx()
 	} else {
 		var wg sync.WaitGroup
 		nthreads := 2 + rnd.Intn(5)
@@ -388,7 +415,7 @@ func cmdFutures(args []string) {
 	run := func(body string, det bool, deadctx ...bool) {
 		rec.events = rec.events[:0]
 		total++
-		if e := runFutureScenario(rec, rnd, body, det, len(deadctx) == 1, len(deadctx) == 2); e != nil {
+		if e := runFutureScenario(rec, rnd, body, det && len(deadctx) != 3, len(deadctx) == 1, len(deadctx) == 2, len(deadctx) == 3); e != nil {
 			if strings.HasPrefix(e.Error(), "HANG") {
 				hangs = append(hangs, e.Error())
 				return
@@ -410,6 +437,9 @@ func cmdFutures(args []string) {
 	}
 	for _, b := range []string{"value", "ignores", "value", "error"} {
 		run(b, true, true, true) // the canceller held between its check and its mark
+	}
+	for i := 0; i < 8; i++ {
+		run(bodies[i%len(bodies)], true, true, true, true) // predicates polled while another thread cancels
 	}
 	for i := 0; i < *n; i++ {
 		run(bodies[rnd.Intn(len(bodies))], false)
